@@ -556,6 +556,8 @@ impl Writer {
               .as_ref()
               .map(|w| w.wake_by_ref());
           }
+          #[cfg(rustdds_verif)]
+          crate::verif::sched::yp("k1");
 
           // Insert data to local HistoryBuffer
           let timestamp =
